@@ -48,11 +48,19 @@ def check(hyps, goal, inputs=None, timeout_ms=8000, use_cvc5=True, second_opinio
         return "proved", "simplifier", time.time() - t0, None, ""
     neg = z3.Not(goal)
     s = z3.Solver()
-    s.set("timeout", timeout_ms)
+    s.set("timeout", min(timeout_ms, 2500))
     for h in hyps:
         s.add(h)
     s.add(neg)
     r = s.check()
+    if r == z3.unknown and use_cvc5 and _has_quant(list(hyps) + [neg]):
+        r2 = run_cvc5(s, min(timeout_ms, 6000))
+        if r2 == "unsat":
+            return "proved", "cvc5", time.time() - t0, None, ""
+        use_cvc5 = False
+    if r == z3.unknown:
+        s.set("timeout", timeout_ms)
+        r = s.check()
     if r == z3.unsat:
         st = ("proved", "z3", time.time() - t0, None, "")
         if second_opinion and use_cvc5:
@@ -113,3 +121,54 @@ def run_cvc5(solver, timeout_ms):
             os.unlink(path)
         except OSError:
             pass
+
+
+# ---------------------------------------------------------------------------------------------
+# Candidate counterexamples for obligations the portfolio left `unknown`: quantifiers are
+# instantiated over a small index set and all input sizes are bounded, which gives a
+# quantifier-free query.  A model of it is only a CANDIDATE (the instantiation is incomplete):
+# it counts for nothing unless the native replay reproduces a failure on the real code.
+
+def finitize(e, idxs, cache=None):
+    cache = {} if cache is None else cache
+    k = e.get_id()
+    if k in cache:
+        return cache[k]
+    if z3.is_quantifier(e):
+        nv = e.num_vars()
+        body = e.body()
+        import itertools
+        insts = []
+        for combo in itertools.product(idxs, repeat=nv):
+            # de Bruijn: variable 0 is the LAST bound variable
+            terms = [z3.IntVal(c) for c in reversed(combo)]
+            inst = z3.substitute_vars(body, *terms)
+            insts.append(finitize(inst, idxs, cache))
+        r = z3.And(*insts) if e.is_forall() else z3.Or(*insts)
+    elif z3.is_app(e) and e.num_args() > 0:
+        ch = [finitize(c, idxs, cache) for c in e.children()]
+        r = e.decl()(*ch)
+    else:
+        r = e
+    cache[k] = r
+    return r
+
+
+def candidate(hyps, goal, inputs, bound=4, timeout_ms=8000):
+    idxs = list(range(-1, bound + 1))
+    s = z3.Solver()
+    s.set("timeout", timeout_ms)
+    cache = {}
+    try:
+        for h in hyps:
+            s.add(finitize(h, idxs, cache))
+        s.add(finitize(z3.Not(goal), idxs, cache))
+    except z3.Z3Exception:
+        return None
+    for name, c in (inputs or {}).items():
+        if isinstance(c, z3.ArithRef) and c.is_int() and (name.startswith("len(") or name == "n" or ".shape" in name):
+            s.add(c <= bound + (4 if name == "n" else 0))
+    r = s.check()
+    if r == z3.sat:
+        return model_to_dict(s.model(), inputs or {})
+    return None
